@@ -8,7 +8,7 @@ from pyvc.spec import ContractSet
 
 HOME = os.environ.get('VERIF_HOME', os.path.dirname(os.path.dirname(os.path.abspath(__file__))))
 
-_MODULES = ['ghosts', 'externals', 'datatypes', 'consensus', 'lemmas']
+_MODULES = ['ghosts', 'externals', 'datatypes', 'consensus', 'coinstate', 'lemmas']
 _cset = None
 
 
@@ -30,11 +30,29 @@ def make_verifier(seed=0, timeout_ms=20000):
     cs = load()
     v = Verifier(build_registry(), cs, timeout_ms=timeout_ms, seed=seed)
     v.structural_classes = set(STRUCTURAL)
+    v.key_projection = {'Transaction': _tx_key}
     return v
+
+
+def _tx_key(eng, x, st):
+    """sets / dicts of Transaction objects are keyed by the transaction id (python: __hash__ = hash(self.hash()); two
+    objects with different ids are never identified, two with the same id are equal by A-HASH + C07)"""
+    from pyvc.types import to_sort, BYTES_SORT
+    from pyvc import CLS
+    f = eng.uf('tx_id', to_sort(CLS('Transaction'), eng.reg), BYTES_SORT)
+    eng.assumptions_used.add('A-KEY')
+    return f(x.t)
 
 
 # level / notes per property; functions and lemmas come from the props tags on the contracts
 PROPS = {
+    'C01': dict(level='proof',
+                explanation="post-conditions of the validation functions (by-itself, in-coinstate, duplicate checks, "
+                            "signature check, add_block) proved from their source for all inputs; lemma C01.accepted-block "
+                            "derives the statement for every accepted block from those contracts"),
+    'C05': dict(level='proof',
+                explanation="header-rule post-conditions (proof of work as numeric comparison, retarget arithmetic, "
+                            "target from the block's own ancestors, height, time) proved from source"),
     'C16': dict(level='proof',
                 explanation="get_block_subsidy and validate_sashimi_range verified for all integers against the "
                             "documented schedule (era table by iterated halving); monotonicity, exhaustion and the "
